@@ -182,7 +182,10 @@ def _find_corner_bindings(fn_node):
                 t = s.targets[0]
                 # v0, v1, v2 = triangle           |  v0, v1, v2 = t[:, 0], t[:, 1], t[:, 2]
                 if isinstance(t, ast.Tuple) and len(t.elts) == 3 and all(isinstance(e, ast.Name) for e in t.elts):
-                    if isinstance(s.value, ast.Name):
+                    if isinstance(s.value, (ast.Name, ast.Call, ast.Attribute, ast.Subscript)) and not (
+                            isinstance(s.value, ast.Call) and isinstance(s.value.func, ast.Attribute) and isinstance(s.value.func.value, ast.Name)
+                            and s.value.func.value.id == "self"):
+                        # v0, v1, v2 = triangle   |   a, b, c = vertices[simplices].transpose(1, 0, 2)
                         out.append((i, [e.id for e in t.elts], block))
                     elif isinstance(s.value, ast.Tuple) and len(s.value.elts) == 3 and all(_const_sel(v) == k for k, v in enumerate(s.value.elts)) \
                             and len({ast.dump(v.value) for v in s.value.elts}) == 1:
@@ -324,6 +327,14 @@ def report(res, index, targets, rule="SYM-1"):
             for name_, m_ in c_.methods.items():
                 methods[name_] = m_.node
         checked, bad = check_function(fn.node, methods)
+        if not checked and not bad:
+            # the corners are bound in a private helper the member calls (self._helper()): judge the helper's values
+            for n_ in ast.walk(fn.node):
+                if isinstance(n_, ast.Call) and isinstance(n_.func, ast.Attribute) and isinstance(n_.func.value, ast.Name) and n_.func.value.id == "self" \
+                        and n_.func.attr in methods and methods[n_.func.attr] is not fn.node:
+                    c2, b2 = check_function(methods[n_.func.attr], methods)
+                    checked += c2
+                    bad += b2
         k = f"{cname}.{member}"
         if bad:
             name, line, (a, b) = bad[0]
